@@ -76,10 +76,11 @@ def make_cases(tier, seed):
         r = gen.seeded(seed, 'C04', i)
         can = Canary(r)
         nb = 1 if i % 3 else 2
+        tps = r.choice([1000, 10 ** 6])      # one rate for all sets of a case: record times are generated for it (normalised, < 2^63 ticks)
         bps = []
         for j in range(nb):
             qrh, sigh, rrh, oth = masks(tier, r, i if j == 0 else 10 ** 6)
-            bps.append(gen.gen_bp(r, tps=r.choice([1000, 10 ** 6]), maxi=r.choice([1, 2, 5, 10000]), hints=(qrh, sigh, rrh, oth)))
+            bps.append(gen.gen_bp(r, tps=tps, maxi=r.choice([1, 2, 5, 10000]), hints=(qrh, sigh, rrh, oth)))
         pre = {'major': 1, 'minor': 0, 'private': 1, 'bps': bps}
         c = {'id': 'c%05d' % i, 'preamble': pre, 'open': {'id': 'o0', 'kind': r.choice(['name', 'fd']), 'comp': 'none'}, 'ops': []}
         base = r.randrange(10 ** 9, 2 * 10 ** 9)
@@ -87,21 +88,21 @@ def make_cases(tier, seed):
         for k in range(r.choice([2, 4, 8])):
             x = r.random()
             if x < 0.6:
-                q = full_qr(r, can, 1000, base)
+                q = full_qr(r, can, tps, base)
                 if r.random() < 0.35:
                     q = sparse_qr(r, q, bps[0])
                 c['ops'].append({'op': 'qr', 'r': q})
             elif x < 0.75:
                 c['ops'].append({'op': 'aec', 'r': {'t': r.randrange(6), 'code': r.randrange(256), 'tf': r.randrange(64), 'ip': can.make(16)}})
             elif x < 0.9:
-                c['ops'].append({'op': 'mm', 'r': {'ts': gen.gen_ts(r, 1000, base), 'cip': can.make(16), 'cport': 99, 'sip': can.make(16), 'sport': 53, 'tf': 2, 'pl': can.make(30)}})
+                c['ops'].append({'op': 'mm', 'r': {'ts': gen.gen_ts(r, tps, base), 'cip': can.make(16), 'cport': 99, 'sip': can.make(16), 'sport': 53, 'tf': 2, 'pl': can.make(30)}})
             elif x < 0.94:
                 # a block the application configures itself (constructed, or moved / copied into place while still empty) and fills
                 # through the generic, hint-applying add calls
                 bi = r.randrange(nb)
-                items = [{'k': 'qr', 'r': full_qr(r, can, 1000, base)} for _ in range(r.choice([1, 2]))]
+                items = [{'k': 'qr', 'r': full_qr(r, can, tps, base)} for _ in range(r.choice([1, 2]))]
                 if r.random() < 0.5:
-                    items.append({'k': 'mm', 'r': {'ts': gen.gen_ts(r, 1000, base), 'cip': can.make(16), 'cport': 7, 'pl': can.make(20)}})
+                    items.append({'k': 'mm', 'r': {'ts': gen.gen_ts(r, tps, base), 'cip': can.make(16), 'cport': 7, 'pl': can.make(20)}})
                 if r.random() < 0.5:
                     items.append({'k': 'aec', 'r': {'t': r.randrange(6), 'code': r.randrange(256), 'tf': r.randrange(64), 'ip': can.make(16)}})
                 op = {'op': 'dblock', 'bp': bi, 'items': items}
